@@ -244,8 +244,36 @@ pub fn store_scenario(r: &mut Report, seed: u64) {
             q.push_back(t);
         }
     };
-    let ops = 30 + rng.usize(60);
     let mut evictions = 0;
+    // a burst on one info hash first: every client (six node ids) announces on it, and five keys sign for it -
+    // more distinct announcers than any configured per-hash limit (1..3)
+    {
+        let ih = hashes[0];
+        for ci in 0..clients.len() {
+            let token = clients[ci].token.clone().map(|t| t.0).unwrap_or_default();
+            let id = clients[ci].id;
+            if fx.rpc(&mut clients[ci], |tid| q_announce_peer(tid, &id, &ih, 900 + ci as u16, None, &token)).is_ack() {
+                touch(&mut lru_ih, ih, caps.2, true);
+            }
+        }
+        for sk in &signers {
+            let token = clients[0].token.clone().map(|t| t.0).unwrap_or_default();
+            let id = clients[0].id;
+            let ts = fx.w.unix_micros() + 1000;
+            let sg = sign_announce(sk, &ih, ts);
+            if fx.rpc(&mut clients[0], |tid| q_announce_signed_peer(tid, &id, &ih, &sg.k, &sg.sig, ts, &token)).is_ack() {
+                touch(&mut lru_sih, ih, caps.2, true);
+            }
+        }
+        if let Some(sn) = fx.server.as_ref().and_then(|server| snapshot(&fx.w, server)) {
+            let z = &sn.stores;
+            if z.peers.1 > caps.3 || z.signed_peers.1 > caps.3 {
+                r.violation("store/over-capacity/peers-per-hash", "a store holds more entries than its configured capacity", case.clone(), json!({"sizes": format!("{z:?}"), "step": "burst of 6 announcers / 5 signing keys on one info hash"}));
+            }
+            r.count("announcer_bursts_checked");
+        }
+    }
+    let ops = 30 + rng.usize(60);
     for step in 0..ops {
         let ci = rng.usize(clients.len());
         let token = clients[ci].token.clone().map(|t| t.0).unwrap_or_default();
